@@ -229,3 +229,50 @@ Proof.
   replace (k - length a)%nat with 0%nat by lia. simpl. rewrite app_nil_r. f_equal.
   apply IH. rewrite skipn_length. lia.
 Qed.
+
+(* ---- a language is found first: it sits at position [pos] of the finder's list and shares no word with
+        the languages before it (decidable; instances are computed on the generated lists) ---- *)
+Fixpoint wl_eqb (a b : list (list N)) : bool :=
+  match a, b with
+  | [], [] => true
+  | x :: a', y :: b' => list_eqb x y && wl_eqb a' b'
+  | _, _ => false
+  end.
+
+Lemma wl_eqb_eq a : forall b, wl_eqb a b = true -> a = b.
+Proof.
+  induction a as [|x a IH]; destruct b as [|y b]; simpl; try discriminate; [reflexivity|].
+  rewrite andb_true_iff, list_eqb_spec. intros [-> H]. f_equal. apply IH; assumption.
+Qed.
+
+Definition disjointb (a b : list (list N)) : bool := forallb (fun w => negb (wmemb w b)) a.
+
+Lemma disjointb_sound a b : disjointb a b = true -> forall w, In w a -> ~ In w b.
+Proof.
+  unfold disjointb. rewrite forallb_forall. intros H w Ia Ib. specialize (H w Ia).
+  apply negb_true_iff in H. apply wmemb_In in Ib. congruence.
+Qed.
+
+Definition lang_first_okb (finder : list (list (list N))) (wp : list (list N) * nat) : bool :=
+  match nth_error finder (snd wp) with
+  | Some wl' => wl_eqb wl' (fst wp)
+  | None => false
+  end && forallb (disjointb (fst wp)) (firstn (snd wp) finder).
+
+Lemma lang_first_sound finder wl pos : lang_first_okb finder (wl, pos) = true ->
+  exists pre post, finder = pre ++ wl :: post /\ forall L' w, In L' pre -> In w wl -> ~ In w L'.
+Proof.
+  unfold lang_first_okb. cbn [fst snd]. rewrite andb_true_iff. intros [A B].
+  destruct (nth_error finder pos) as [wl'|] eqn:E; [|discriminate]. apply wl_eqb_eq in A. subst wl'.
+  destruct (nth_error_split _ _ E) as (pre & post & -> & Lp). exists pre, post. split; [reflexivity|].
+  rewrite <- Lp in B. rewrite firstn_app, Nat.sub_diag, firstn_O, app_nil_r, firstn_all in B.
+  rewrite forallb_forall in B. intros L' w IL' Iw. exact (disjointb_sound wl L' (B L' IL') w Iw).
+Qed.
+
+Lemma in_combine_of_in {A B} (a : list A) (b : list B) x : length a = length b -> In x a ->
+  exists y, In (x, y) (combine a b).
+Proof.
+  revert b; induction a as [|h a IH]; intros [|k b] L I; simpl in *; try discriminate; [contradiction|].
+  destruct I as [->|I]; [exists k; left; reflexivity|].
+  destruct (IH b ltac:(congruence) I) as [y Hy]. exists y. right; assumption.
+Qed.
